@@ -128,3 +128,15 @@ Example C26_select_rows_unknown_column_rejected :
   build_step T_example ["a"; "g"] (SSelectRows (EOp ">" [ECol "zz"; EVal])) = Reject
   /\ violates T_example ["a"; "g"] (SSelectRows (EOp ">" [ECol "zz"; EVal])) R_unknown_column.
 Proof. split; [vm_compute; reflexivity|]. exists "zz". split; [simpl; tauto|]. simpl. intuition congruence. Qed.
+(* a column common to both tables that is a join key on ONE side only (differently named keys) is a non-key common column:
+   orders(id, cust, amount) joined to custs(cust_id, id, name) on id = cust_id is rejected when the check is requested
+   (the excused columns are the INTERSECTION of the two key lists), and accepted when it is not *)
+Example C26_one_sided_key_is_a_common_nonkey_column :
+  build_step T_example ["id"; "cust"; "amount"] (SJoin ["cust_id"; "id"; "name"] [("id", "cust_id")] "LEFT" true) = Reject
+  /\ violates T_example ["id"; "cust"; "amount"] (SJoin ["cust_id"; "id"; "name"] [("id", "cust_id")] "LEFT" true) R_join_common_nonkey
+  /\ build_step T_example ["id"; "cust"; "amount"] (SJoin ["cust_id"; "id"; "name"] [("id", "cust_id")] "LEFT" false)
+     = Accept ["id"; "cust"; "amount"; "cust_id"; "name"].
+Proof.
+  split; [vm_compute; reflexivity|]. split; [|vm_compute; reflexivity].
+  simpl. split; [reflexivity|]. exists "id". split; [tauto|]. split; [tauto|]. intros [_ [E|[]]]. discriminate E.
+Qed.
